@@ -16,6 +16,7 @@ import "math"
 func iter() int                 { return 0 }
 func allocated() int            { return 0 }
 func old[T any](x T) T          { return x }
+func before[T any](x T) T       { return x }
 func unchanged[T any](x T) bool { return true }
 func isFresh[T any](s []T) bool { return true }
 func sameSlice[T any](a, b []T) bool {
@@ -200,3 +201,23 @@ func specRembClamp(b float32) float32 {
 
 // specRembRaw is m * 2^e without masking m (m may be 2^18).
 func specRembRaw(m uint32, exp uint8) float32 { return float32(m) * specPow2f(exp&63) }
+
+// ---- draft-holmer-rmcat-transport-wide-cc-extensions-01 section 3.1.3 / 3.1.4: status chunks ----
+
+// specRunLengthWord: 0 | S(2) | run length(13).
+func specRunLengthWord(symbol, run uint16) uint16 { return (symbol&3)<<13 | run&0x1FFF }
+
+// specVectorSymbol1 / specVectorSymbol2: symbol i of a one-bit (14 symbols) / two-bit (7 symbols) vector chunk.
+func specVectorSymbol1(w uint16, i int) uint16 { return w >> uint(13-i) & 1 }
+func specVectorSymbol2(w uint16, i int) uint16 { return w >> uint(12-2*i) & 3 }
+
+// specDeltasLen: octets occupied by the first n receive deltas (1 for a small delta, 2 otherwise).
+func specDeltasLen(ds []*RecvDelta, n int) int {
+	if n <= 0 {
+		return 0
+	}
+	if ds[n-1].Type == TypeTCCPacketReceivedSmallDelta {
+		return specDeltasLen(ds, n-1) + 1
+	}
+	return specDeltasLen(ds, n-1) + 2
+}
